@@ -190,7 +190,7 @@ func modeConcRemove(r *vlib.Run) {
 		if len(tightPath) == 0 {
 			tightPath = []string{"a"}
 		}
-		for round := 0; round < 200; round++ {
+		for round := 0; round < 60; round++ {
 			a, b := &tcli{id: 3000}, &tcli{id: 3001}
 			rmA := m.AddQuery(cp(tightPath), a)
 			var gate int32
